@@ -257,6 +257,11 @@ func (x *explorer) simplify(t *Term, st map[int]Val, depth int) *Term {
 	switch t.Op {
 	case "field":
 		b := t.Args[0]
+		if b.Op == "assert" && len(b.Args) == 1 && !strings.HasPrefix(b.Name, "interface") {
+			// x.(T).f names the same thing as the f of the variable a type switch binds in `case T`
+			// (rendered x.f): one form
+			return x.simplify(&Term{Op: "field", Name: t.Name, Args: []*Term{b.Args[0]}, Pos: t.Pos, Owner: t.Owner}, st, depth+1)
+		}
 		switch b.Op {
 		case "struct":
 			if v := structGet(b, t.Name); v != nil {
@@ -295,6 +300,12 @@ func (x *explorer) simplify(t *Term, st map[int]Val, depth int) *Term {
 			return v
 		}
 	case "call":
+		if len(t.Args) >= 1 && t.Args[0].Op == "assert" && len(t.Args[0].Args) == 1 && strings.HasPrefix(t.Name, "(") {
+			// a method of T called on x.(T): likewise
+			if recvT := t.Name[1:strings.Index(t.Name, ")")]; recvT == t.Args[0].Name || recvT == "*"+t.Args[0].Name {
+				return &Term{Op: "call", Name: t.Name, Args: append([]*Term{t.Args[0].Args[0]}, t.Args[1:]...), Pos: t.Pos}
+			}
+		}
 		if t.Name == "dyn" && len(t.Args) >= 1 && t.Args[0].Op == "mval" && len(t.Args[0].Args) == 1 {
 			// a call through a method value (slices.ContainsFunc(xs, id.Equal)) is the method call
 			mv := t.Args[0]
